@@ -117,16 +117,23 @@ package resp
 // ReadHeaders: a second header block is read only after a first one was read without error (the 100-continue
 // interim response); nothing is read after an error.
 //@ ghost var rhOK int
+//@ ghost var rhCont bool
 //@ func ReadHeaders(resp, r) err
-//@   props C11
+//@   props C11, C02
 //@   requires resp != nil && r != nil
-//@   modifies *, rhOK, r.pos, r.avail, r.failed
+//@   modifies *, rhOK, rhCont, r.pos, r.avail, r.failed
 //@   top-ensures resp.Header.disableNormalizing == old(resp.Header.disableNormalizing)
 //@   ghostset-at-entry rhOK = 0
 //@   assert before ReadHeader#0: rhOK == 0
 //@   assert before ReadHeader#1: rhOK == 1
 //@   ghostset after ReadHeader: rhOK = ite(result == nil, rhOK + 1, -1)
 //@   top-ensures err == nil ==> rhOK == 1 || rhOK == 2
+// (C02/C11: an interim 100 Continue is never what ReadHeaders hands back - the final response is read next, however
+// little of it has arrived so far; the decision does not look at the amount buffered)
+//@   ghostset-at-entry rhCont = false
+//@   ghostset after ResponseHeader.StatusCode: rhCont = (result == 100)
+//@   top-ensures err == nil && rhCont ==> rhOK == 2
+//@   forbid Len
 
 // ReadRespBody: no byte of the connection is read for a response that must not carry a body, and such a response is
 // never rejected (whatever length its header announces - nothing of it is on the wire); otherwise the body
